@@ -1385,6 +1385,8 @@ class FuncLower:
         self._in_loop_body, self._loop_names, self._break_ret = saved
         if isinstance(st, ast.For) and not st.orelse:
             summ = self._summarise_for(idx, assigned, pos, lw, head[1], body, rest)
+            if summ is None:
+                summ = self._summarise_extreme_by_key(idx, assigned, pos, lw, head[1], body, rest)
             if summ is not None:
                 for n, term in summ.items():
                     lw.env[n] = term
@@ -1484,6 +1486,45 @@ def _extreme_by_key(self, idx, assigned, pos, lw, iter_term, body, rest):
     dict((k, min(V(x) for x in g)) for k, g in groupby(sorted(S, key=K), key=K))  - the same dictionary up to the order of its
     entries. Returns {name: term after the loop} or None."""
     item = ('phi', idx, '$item')
+    if body[0] == 'continue' and not body[2]:
+        # d[K] = min(d.get(K, V), V)   (the unconditional spelling of the same accumulation)
+        vals1 = dict((kw[1][1], kw[2]) for kw in body[1][1])
+        rest_names1 = set()
+        for stn in rest:
+            if isinstance(stn, ast.AST):
+                rest_names1 |= {n.id for n in ast.walk(stn) if isinstance(n, ast.Name)}
+        tgt = None
+        for name in assigned:
+            phi = ('phi', idx, pos[name])
+            v = vals1.get(pos[name])
+            if v is None:
+                return None
+            others1 = any(x[0] == 'phi' and x[1] == idx and x != item for x in walk(v))
+            if not others1:
+                if name in rest_names1:
+                    return None
+                continue
+            if tgt is not None or v[0] != 'setitem' or v[1] != phi or lw.env.get(name) != ('dict', ()):
+                return None
+            key, new = v[2], norm(v[3])
+            if any(x[0] == 'phi' and x[1] == idx and x != item for x in walk(key)):
+                return None
+            if not (new[0] == 'call' and new[1] in (G('min'), G('max')) and len(new[2]) == 2 and not new[3]):
+                return None
+            a_, b_ = new[2]
+            get = lambda val: norm(call(('attr', phi, 'get'), [key, val]))
+            val = b_ if a_ == get(b_) else (a_ if b_ == get(a_) else None)
+            if val is None or any(x[0] == 'phi' and x[1] == idx and x != item for x in walk(val)):
+                return None
+            tgt = (name, key, val, new[1][1])
+        if tgt is None:
+            return None
+        name, key, val, which = tgt
+        at = lambda t, p_: replace(t, lambda x: V(p_) if x == item else None)
+        g, x, y, z = fresh('grp'), fresh('it'), fresh('it'), fresh('it')
+        grouped = call(G('itertools.groupby'), [call(G('sorted'), [iter_term], [('key', lam([y], at(key, y)))])], [('key', lam([z], at(key, z)))])
+        per = lam([g], ('tuple', (('sub', V(g), C(0)), call(G(which), [call(G('map'), [lam([x], at(val, x)), ('sub', V(g), C(1))])]))))
+        return {name: call(G('dict'), [call(G('map'), [per, grouped])])}
     if body[0] != 'if' or body[2][0] != 'continue' or body[3][0] != 'continue' or body[2][2] or body[3][2]:
         return None
     rest_names = set()
@@ -1805,6 +1846,8 @@ def norm(t):
         if t[3][0] == 'map' and t[2] == ('list', ()):
             return ('map', t[3][1], ('if', c, ('list', ()), t[3][2]))
         return t
+    if k == 'cmp' and t[1] in ('Is', 'IsNot') and t[2][0] == 'const' and t[3][0] == 'const' and (t[2][1] is None or t[3][1] is None):
+        return C((t[2][1] is t[3][1]) == (t[1] == 'Is'))          # identity with None between constants
     if k == 'cmp' and t[1] in ('Eq', 'NotEq') and _const_display(t[2]) and _const_display(t[3]):
         # two constants (or tuples of constants): Python's own equality decides
         py = lambda x: x[1] if x[0] == 'const' else tuple(py(y) for y in x[1])
